@@ -23,7 +23,9 @@ LEVEL_TEXT = ("Coq theorems over a Gallina model of the probing registry (Probe,
               "the Rust on every run. The model is compared iteration by iteration with the real daemon thread in the "
               "simulated world, and the statement is executed as a monitor (chk_C07) on the implementation's packets, "
               "events and requested wake-ups; the monitor starts the count afresh when an interface disappears and, for its "
-              "instance name, when a service is unregistered")
+              "instance name, when a service is unregistered; it judges the shared records too: a type / subtype PTR only "
+              "for an instance name established on the interface, the service-type enumeration PTR only if a service of "
+              "that type has an established instance name there (code 36)")
 TECHNIQUE = ("machine-checked proof in Coq (invariants of the probe state machine over all operation sequences) + "
              "model/implementation correspondence on simulated-daemon histories")
 LEVELS = "K6 (real ServiceDaemon thread in the simulated world: register / queries / conflicts / unregister histories)"
@@ -34,7 +36,10 @@ RULE = ("simulated histories: 1-3 services (with/without subtype, IPv4/IPv6/both
         "phase; addr_auto services with disable_interface / enable_interface (by name, All, IPv4, IPv6) at every "
         "phase of probing and after the announcements, gaps 0-3000 ms. Model-free family (60): 1-3 services whose instance "
         "names contain non-ASCII upper-case letters (lower-case non-ASCII and ASCII names as control), fixed or auto "
-        "addresses, interface check off, timer-exact run, then a question per instance. A history is non-trivial when the daemon sent at least one packet; distinct = distinct history lines")
+        "addresses, interface check off, timer-exact run, then a question per instance. Questions for the type, the subtype "
+        "and the service-type enumeration name while the service is not yet announced (probing window, interface that "
+        "appears later, re-probing after a rename; 120); two or three services sharing a host whose name is renamed by a "
+        "conflict, then unregister of one, questions, update and unregister of the rest (60). A history is non-trivial when the daemon sent at least one packet; distinct = distinct history lines")
 TRUSTED = [
     "Coq 8.16.1 kernel (coqc); vm_compute only in Examples and witness lemmas",
     "axioms: none (Print Assumptions: Closed under the global context for every theorem)",
